@@ -109,8 +109,13 @@ def _refine_case(case, ctx):
                      direction=K.dirs_name(sel), ndirs=len(sel), density=max(vec), normalize_kv=desc.get('normalize_kv', True),
                      net=desc['net'].split(':')[0], interior_knots=[len(set(k)) - 2 for k in snap0['kvs']])
         rc = dict(kind='refine', shape=desc, densities=[list(vec)])
-        operations.refine_knotvector(obj, list(vec))
-        snap = S.snapshot(obj)
+        try:
+            operations.refine_knotvector(obj, list(vec))
+            snap = S.snapshot(obj)
+        except Exception as e:
+            ctx.check('C05.refine.accepted', False, rc, feats, 'refinement is carried out', repr(e)[:300])
+            continue
+        ctx.check('C05.refine.accepted', True, rc, feats)
         if not sel:
             ctx.check('C05.refine.none_selected', snap == snap0, rc, feats, 'snapshot unchanged', dict(kvs=snap['kvs'], sizes=snap['sizes']))
             continue
